@@ -16,7 +16,7 @@ for p in $V/selftest/mutants/*.patch; do
   ok=1
   (cd /repo && go build ./... >/dev/null 2>&1) || { echo "MUTANT $name: does not compile"; ok=0; }
   if [ $ok = 1 ] && [ -z "${SELFTEST_SKIP_TESTS:-}" ]; then
-    (cd /repo && go test -vet=off -count=1 ./... >/dev/null 2>&1) || note=" [also killed by the repository's tests: engine canary only]"
+    (cd /repo && (go test -vet=off -count=1 -p 1 ./... >/dev/null 2>&1 || go test -vet=off -count=1 -p 1 ./... >/dev/null 2>&1)) || note=" [also killed by the repository's tests: engine canary only]"
   fi
   if [ $ok = 1 ]; then
     out=$($V/bin/check $prop quick 2>&1); code=$?
